@@ -47,12 +47,15 @@ RULE = (
     "image = (kind in gray8/rgb8/gray1/dct) x width 1..67 x height 1..40 x sample pattern (random, structured with all "
     "rows distinct, constant, marker-biased) x filter chain (none, every single lossless filter, pairs of them, DCT "
     "alone or behind one lossless filter) x container (image XObject with ColorSpace as name or one-element array, "
-    "Filter as name or array; inline image with abbreviated/full/mixed keys and names). Sweep shards enumerate every "
+    "Filter as name or array, Width/Height/BitsPerComponent/ColorSpace direct or as indirect references; inline image "
+    "with abbreviated/full/mixed keys and names, optionally followed by an image XObject). Sweep shards enumerate every "
     "width 1..67 for each kind deterministically (seed independent), random shards draw the rest. XObject documents: "
     "1-3 pages, 1-4 draws per page from a pool of 1-5 images under names that collide across pages, optional "
     "pre-existing files named like the exports. Inline documents: 1-3 inline images interleaved with text operators, "
-    "ID followed by one white-space byte, data followed by LF/CRLF/CR/space and EI followed by space/LF/CR/CRLF/TAB/FF/"
-    "NUL or the end of the stream; data (and encoded data) never contain 'EI' followed by white space, VT, a delimiter "
+    "ID followed by one white-space byte (any of the six), data followed by LF/CRLF/CR/space and EI followed by "
+    "space/LF/CR/CRLF/TAB/FF/NUL or the end of the stream; an enumeration shard family crosses 18 data tails (E, EE, "
+    "EOLs, EIx, ~>, NUL ...) x 4 separators x 8 bytes after EI x lengths around 4096/8192; data ending in CR in front "
+    "of the separator LF are a tagged sub-family (known finding); data (and encoded data) never contain 'EI' followed by white space, VT, a delimiter "
     "or the end of the data, so the end is unambiguous for every reader; unfiltered data have exactly the length the "
     "image parameters imply; data sizes straddle the 4096-byte parser buffer. One evaluation = one drawn image (export + "
     "LTImage) or one text comparison; distinct = distinct (kind,w,h,samples,chain,container); non-trivial = at least "
@@ -94,7 +97,7 @@ def minimums(tier: str) -> Dict[str, int]:
         "preexisting_files_checked": 5000, "name_collisions_resolved": 8000, "output_src_checked": 12000,
         "docs_tagged": 40,
     }
-    m = q if tier == "quick" else {k: v * 5 for k, v in q.items()}
+    m = q if tier == "quick" else {k: v * 8 for k, v in q.items()}
     m.update({
         "seen:xobj_widths": 67, "seen:xobj_heights": 40, "seen:bmp_kind_wmod": 3 * 8, "seen:chains": 60,
         "seen:inline_after_EI": 8, "seen:inline_sep": 4, "seen:inline_id_ws": 6, "seen:inline_keystyle": 3,
@@ -790,7 +793,7 @@ def check_doc(case: Dict[str, Any]) -> Tuple[List[Tuple[str, str]], Dict[str, in
             dr = draws[i]
             fails.extend(f[:3])
             ext = os.path.splitext(c["new"][0])[1]
-            if ext == ".bmp":
+            if ext == ".bmp" and dr["kind"] != "dct":
                 count("bmp_files_decoded")
                 count("bmp_%s" % dr["kind"])
                 count("bmp_wmod4_%d" % (row_bytes(dr["kind"], dr["w"]) % 4))
